@@ -257,6 +257,25 @@ func run(w *core.Worker, c Case) {
 				fail("result", "Merge(%v, %v) = %v want %v", orig, more, got, want)
 			}
 			nontrivial = len(want) >= 2
+		case "MergeAlias":
+			// the arguments are windows [lo,hi) of ONE backing array of c.N distinct elements (each
+			// window keeps the array's remaining capacity, like items[:2]): the result must be the
+			// concatenation of what the windows held when the call was made
+			arr := make([]P, c.N)
+			for j := range arr {
+				arr[j] = P{j % 3, j}
+			}
+			var args [][]P
+			var want []P
+			for _, wd := range c.M {
+				args = append(args, arr[wd[0]:wd[1]])
+				want = append(want, append([]P{}, arr[wd[0]:wd[1]]...)...)
+			}
+			got := gogu.Merge(args[0], args[1:]...)
+			if !eqP(got, want) {
+				fail("result-aliased-arguments", "Merge of the windows %v of one %d-element array = %v want %v", c.M, c.N, got, want)
+			}
+			nontrivial = len(want) >= 2
 		case "Drop":
 			got := gogu.Drop(s, c.N)
 			k := c.N
@@ -415,7 +434,7 @@ func nestings(depth int) []Nest {
 func TestProp(t *testing.T) {
 	r := core.Start(t, "C12")
 	defer r.Finish()
-	r.Rule("cases = one call of a reshaping helper on a slice of distinguishable elements {value, original index}: Chunk (concatenation + chunk lengths), Partition/Filter/Reject/DropWhile/DropRightWhile/GroupBy (exact parts in order), Zip/Unzip (transpose and mutual inverse), Flatten (leaves left to right), Merge (concatenation), Drop (min(|n|,len) from the correct end), Reverse/ReverseStr (reversal + involution), Shuffle (permutation), Map/ForEach/ForEachRight/Reduce (callback log = each index once in order); non-trivial = input of >= 2 elements; distinct by hash of the case")
+	r.Rule("cases = one call of a reshaping helper on a slice of distinguishable elements {value, original index}: Chunk (concatenation + chunk lengths), Partition/Filter/Reject/DropWhile/DropRightWhile/GroupBy (exact parts in order), Zip/Unzip (transpose and mutual inverse), Flatten (leaves left to right), Merge (concatenation, also when the arguments are overlapping windows of one backing array), Drop (min(|n|,len) from the correct end), Reverse/ReverseStr (reversal + involution), Shuffle (permutation), Map/ForEach/ForEachRight/Reduce (callback log = each index once in order); non-trivial = input of >= 2 elements; distinct by hash of the case")
 
 	L := r.Pick(7, 9)
 	core.Monitor(r, "reshape-sweep", 0, func(emit func(Case)) {
@@ -450,6 +469,27 @@ func TestProp(t *testing.T) {
 				}
 			}
 		}
+		// Merge on overlapping / adjacent windows of one backing array
+		var wins [][]int
+		for lo := 0; lo <= 5; lo++ {
+			for hi := lo; hi <= 5; hi++ {
+				wins = append(wins, []int{lo, hi})
+			}
+		}
+		var nAl int64
+		for _, a := range wins {
+			for _, b := range wins {
+				emit(Case{Fn: "MergeAlias", N: 5, M: [][]int{a, b}})
+				nAl++
+				for _, c := range wins {
+					if c[1]-c[0] >= 1 && c[1]-c[0] <= 2 {
+						emit(Case{Fn: "MergeAlias", N: 5, M: [][]int{a, b, c}})
+						nAl++
+					}
+				}
+			}
+		}
+		r.Exhaustive("Merge on all pairs (and triples with a third window of length 1..2) of windows of one 5-element backing array", nAl)
 		// all square matrices up to 3x3 over 2 values
 		var nm int64
 		emit(Case{Fn: "Zip", M: [][]int{}})
